@@ -27,7 +27,6 @@ from __future__ import annotations
 import concurrent.futures as cf
 import math
 import os
-from fractions import Fraction
 
 import numpy as np
 
